@@ -158,6 +158,11 @@ def build(inst, rnd=None):
         objs[-1].external_torque = external_torque
     pt = Powertrain(objs[0])
     pt_holder.append(pt)
+    # a SECOND layout declared from shared elements after this powertrain was assembled: the driver of element i is mated with
+    # another gear (its `drives` link now points elsewhere); this powertrain's element tuple and relations are what they were
+    for i in inst.get('fork_after_build', []):
+        other = SpurGear(f'fork{i}', objs[i].n_teeth + 3, q('InertiaMoment', 1))
+        add_gear_mating(objs[i - 1], other, 1)
     return dict(objs=objs, pt=pt, motor=objs[0], calls=calls, q=q, declare=declare, numpy=bool(inst.get('numpy')))
 
 
